@@ -30,7 +30,7 @@ ASSUMPTIONS = [
     "(Parse/HdrLaxModel.v), (a) and (b) are proved by composition with C04 (C05_headers_lax_extends_strict, C05_headers_lax_prefix, "
     "Parse/HdrLaxC05.v) outside the documented struct-decoding exception (an IPv6 extension header of a kind whose struct slot is "
     "filled), and compared with PacketHeaders on the implementation side; the payload's incomplete flag of LaxPacketHeaders is "
-    "checked by C04 (model correspondence), not here; IpHeaders::*_lax / Ipv6Slice::from_slice_lax are tied to the slice family by C04/C06",
+    "compared with the IP payload's flag of LaxSlicedPacket on the same bytes (oracle_headers_incomplete); IpHeaders::*_lax / Ipv6Slice::from_slice_lax are tied to the slice family by C04/C06",
     "same fault: length errors are compared on (required_len, len, layer, layer_start_offset), content errors on the "
     "variant and value; faults of the IP header itself are compared as a group (layer IpHeader, same offset) because "
     "strict Ipv4Slice/Ipv6Slice and lax LaxIpSlice describe a cut-short IP header differently (finding F11)",
@@ -363,6 +363,25 @@ def oracle(ent, data, L, S, W):
 _HFLAG = re.compile(r"\b(ether|macsecmod|ip|udp|tcp|icmp4|icmp6)\((\d),")
 
 
+_LPL = re.compile(r"\bpl\((\d),")
+_HPAY = re.compile(r"\bpay=(ip|udp|tcp|icmp4|icmp6)\((\d),")
+
+
+def oracle_headers_incomplete(L, LH):
+    """(d) for the header-struct family: LaxPacketHeaders has no network payload of its own, its
+    (transport or IP) payload inherits the `incomplete` flag of the IP payload - which for the same
+    bytes is the flag LaxSlicedPacket reports (and that one is checked against the raw length
+    fields by check_incomplete).  A dropped or invented flag is a violation of (d)."""
+    if not (L.startswith("ok") and LH.startswith("ok")):
+        return None
+    a = _LPL.search(L)
+    b = _HPAY.search(LH)
+    if a and b and a.group(1) != b.group(2):
+        return ("(d) headers: LaxPacketHeaders payload %s incomplete=%s but the IP payload of the same bytes is incomplete=%s "
+                "(LaxSlicedPacket: %s)" % (b.group(1), b.group(2), a.group(1), L), None)
+    return None
+
+
 def oracle_headers(ent, data, LH, SH):
     """header-struct family, implementation side only: the same relations between
     LaxPacketHeaders (LH) and PacketHeaders (SH).  (The two families are tied to each other by
@@ -475,6 +494,8 @@ def compare(ctx, cases, impl, model_lines):
             if not o and hdrs:
                 LH, _, SH = hdrs.partition(" ## ")
                 o = oracle_headers(ent, data, LH, SH)
+                if not o:
+                    o = oracle_headers_incomplete(L, LH)
             if o:
                 orc.append((i, "%s: %s" % (prof, o[0]), o[1]))
     return {"corr_mismatch": corr, "oracle_fail": orc, "hist": dict(sorted(hist.items(), key=lambda kv: -kv[1])[:60]),
